@@ -103,7 +103,7 @@ class SubServer:
         argv = [sys.executable, "-B", os.path.join(HERE, "vf", "run_server.py")] + list(args or ["--disable_autoupdate", "--nthreads", "2"])
         self.stderr_path = stderr_path
         self.errf = open(stderr_path, "wb") if stderr_path else subprocess.DEVNULL
-        self.p = subprocess.Popen(argv, stdin=subprocess.PIPE, stdout=subprocess.PIPE, stderr=self.errf, env=env, cwd=cwd, bufsize=0)
+        self.p = subprocess.Popen(argv, stdin=subprocess.PIPE, stdout=subprocess.PIPE, stderr=self.errf, env=env, cwd=cwd, bufsize=0, start_new_session=True)
         self.buf = b""
         self.raw = b""
         self.msgs = []
@@ -185,8 +185,7 @@ class SubServer:
         try:
             rc = self.p.wait(timeout=timeout)
         except subprocess.TimeoutExpired:
-            self.p.kill()
-            self.p.wait()
+            self._killpg()
             rc = None
         try:
             rest = self.p.stdout.read()
@@ -202,10 +201,27 @@ class SubServer:
             self.errf.close()
         return rc
 
+    def _killpg(self):
+        import signal
+        try:
+            os.killpg(self.p.pid, signal.SIGKILL)
+        except (ProcessLookupError, PermissionError):
+            pass
+        try:
+            self.p.kill()
+        except Exception:
+            pass
+        self.p.wait()
+
     def kill(self):
         if self.p.poll() is None:
-            self.p.kill()
-            self.p.wait()
+            self._killpg()
+        else:
+            import signal
+            try:  # stray pool children of a server that already exited
+                os.killpg(self.p.pid, signal.SIGKILL)
+            except (ProcessLookupError, PermissionError):
+                pass
         if self.errf is not subprocess.DEVNULL:
             try:
                 self.errf.close()
